@@ -1,5 +1,5 @@
-(* M-REG: frame lemmas (GENERATED by the snippet in props/c17.py notes; plain text, checked by coqc):
-   which fields the recursive helpers leave alone. *)
+(* M-REG: frame lemmas: which fields the recursive helpers (release1, release, write_sinks, store_flags) leave alone.
+   The file was produced once by a script (one lemma per helper and untouched field); it is ordinary source, checked by coqc. *)
 From Coq Require Import List NArith Bool.
 From Quill Require Import Registry.RegModel.
 Import ListNotations.
